@@ -107,7 +107,9 @@ fn c15_poll_header(c: &mut Ctx, v: u32) {
     let (run, _) = drive_poll_generic(&mut st, &mut rd, PollMode::Keep, 16, None, Pkt::V3, Er::V3);
     match (&run.out, &st) {
         (Drive::Done(Err(e)), GenericPollPacketState::Body(b)) if v > 0 => {
-            let ok = e.is_eof() && b.total == v as usize + 1 + w && b.header.remaining_len == v && b.idx == 0 && b.buf.len() == v as usize;
+            // judged: the public, documented fields (`total` = packet size incl. header, the header's
+            // remaining length) and the EOF; idx / buffer length are implementation layout
+            let ok = e.is_eof() && b.total == v as usize + 1 + w && b.header.remaining_len == v;
             if !ok {
                 c.violation(
                     "C15:poll-header-state",
